@@ -50,6 +50,9 @@ type dom[E any] struct {
 	// probed for while it is in the slice, so every == of the reference definition is defined; the helpers that hash their
 	// elements on the unchanged tree (Except, ExceptSet, GroupBy/CountBy keyed by the element, maps keyed by it) are left out while it is present.
 	once []bool
+	// alloc (optional) provides the memory of the slice (with its spare capacity); C14.guard places it next to inaccessible pages
+	// (pointer-free element types only)
+	alloc func(n int) []E
 }
 
 func (d dom[E]) isIrrefl(i int) bool { return d.irrefl != nil && d.irrefl[i] }
@@ -347,7 +350,7 @@ const typedRule = "case = (element type, list of indices into that type's value 
 	"Trim/TrimLeft/TrimRight (also with the slice itself as the unwanted list), GroupBy/CountBy with the element as key, and maps.Clone/Clear/Keys/Values/HasKey/KeyOf/ContainsValue with the type as map key " +
 	"(compared through sorted iteration, so entries with NaN keys count) and as map value. GroupBy/CountBy keyed by a NaN (a group of its own each time) and maps.Clear of a map with NaN keys are included (both were defects of the pinned tree, fixed). " +
 	"Left out (label left-out:*): Except/ExceptSet while a value that cannot be hashed is in the slice or the list (they hash by design; the definition by == would not panic there). " +
-	"Inputs (incl. spare capacity) must be unchanged by identity after every call; every returned slice/map is overwritten (up to capacity) and the input compared again; Clone is never nil; " +
+	"Inputs (incl. spare capacity) must be unchanged by identity after every call; every returned slice/map is overwritten (up to capacity) and the input compared again (the groups of a GroupBy result are first grown by appends, one after the other, and re-read); Clone is never nil; " +
 	"non-trivial = at least 3 elements and two ==-equal elements"
 
 type tstate[E any] struct {
@@ -411,7 +414,11 @@ func newState[E any](c TCase, d dom[E]) *tstate[E] {
 		spare = 0
 	}
 	if t.n > 0 || !c.Nil {
-		t.back = make(named[E], t.n+spare)
+		if d.alloc != nil && t.n+spare > 0 {
+			t.back = d.alloc(t.n + spare)
+		} else {
+			t.back = make(named[E], t.n+spare)
+		}
 		for i := range t.back {
 			t.back[i] = d.poison
 		}
@@ -732,6 +739,9 @@ func runAny[E any](t *tstate[E]) string {
 		if msg := t.intact(op); msg != "" {
 			return msg
 		}
+		if msg := growGroups(op, t.describe(), groups, d.scribble, func(a, b E) bool { return d.id(a) == d.id(b) }); msg != "" {
+			return msg
+		}
 		for _, g := range groups {
 			vs := g.Values[:cap(g.Values)]
 			for i := range vs {
@@ -860,6 +870,9 @@ func runCmp[E comparable](t *tstate[E]) string {
 		setCl = append(setCl, t.deq(x))
 	}
 	set := make(named[E], len(t.set))
+	if d.alloc != nil && len(t.set) > 0 {
+		set = d.alloc(len(t.set))
+	}
 	for i, x := range t.set {
 		set[i] = d.vals[x]
 	}
@@ -1009,6 +1022,9 @@ func runCmp[E comparable](t *tstate[E]) string {
 				return fmt.Sprintf("GroupBy(s, v->v) (%s): group %d is key %s members %v, want a key == %s and members %v", t.describe(), i, d.id(g.Key), t.ids(g.Values),
 					d.id(d.vals[firstIdx[i]]), t.idsAt(members[firstCl[i]]))
 			}
+		}
+		if msg := growGroups("GroupBy(s, v->v)", t.describe(), groups, d.scribble, func(a, b E) bool { return d.id(a) == d.id(b) }); msg != "" {
+			return msg
 		}
 		counts := slices.CountBy(s, func(e E) E { return e })
 		t.out.Evals++
